@@ -12,5 +12,5 @@ pub mod text;
 pub mod tty;
 
 pub fn all() -> Vec<World> {
-    vec![base64::world(), queue::world(), decode::world(), tty::world(), render::world(), sgr::world(), kitty::world(), text::world(), sixel::world()]
+    vec![base64::world(), queue::world(), decode::world(), tty::world(), tty::full_world(), render::world(), sgr::world(), kitty::world(), text::world(), sixel::world()]
 }
